@@ -464,7 +464,7 @@ func short(s string) string {
 }
 
 var dnBoundary = []string{
-	"CN=John Doe,OU=Users,DC=example,DC=com", "", "CN=a", "CN=a:b,DC=x", ":", "::", ":::", "CN=x:", ":CN=x", "CN=B:8:00:CN=nested,DC=x",
+	"CN=John Doe,OU=Users,DC=example,DC=com", "", "CN=a", "CN=a:b,DC=x", "CN=a\x00b,DC=x", "\x00", "CN=x\x00", "\x00CN=x", "CN=bad\xff\xfeutf8,DC=x", ":", "::", ":::", "CN=x:", ":CN=x", "CN=B:8:00:CN=nested,DC=x",
 	"CN=time 12:30:00,OU=a:b,DC=c", "CN=Doe\\, John,OU=Users,DC=example,DC=com", "CN=a+SN=b,DC=c", "CN=\\#hash,DC=x", "CN= lead,DC=x",
 	"CN=Пользователь,DC=пример,DC=com", "CN=密码:钥,DC=x", "CN=😀,DC=x", "OU=\"quoted:colon\",DC=x", "CN=a\\3Ab,DC=x", "cn=lower,dc=case",
 	"CN=" + strings.Repeat("x", 300) + ",DC=long", "CN=trailing space ,DC=x", "CN=new\nline,DC=x", "CN=eq=eq,DC=x", "CN=semi;colon,DC=x", "CN=<a>,DC=x",
@@ -474,7 +474,7 @@ var dnBoundary = []string{
 
 func randDN(rng *rand.Rand) string {
 	types := []string{"CN", "OU", "DC", "O", "L", "cn", "UID", "2.5.4.3"}
-	alphabet := []string{"%", "%s", "%d", "a", "b", "Z", "0", "9", " ", ":", ":", ",", "\\,", "\\+", "=", "+", "\"", "\\\"", "#", ";", "<", ">", "é", "я", "密", "😀", ".", "-", "_", "\\3A", "\\20"}
+	alphabet := []string{"%", "%s", "%d", "a", "b", "Z", "0", "9", " ", ":", ":", ",", "\\,", "\\+", "=", "+", "\"", "\\\"", "#", ";", "<", ">", "é", "я", "密", "😀", ".", "-", "_", "\\3A", "\\20", "\x00", "\xff"}
 	var parts []string
 	for i, n := 0, 1+rng.IntN(6); i < n; i++ {
 		var sb strings.Builder
